@@ -426,6 +426,20 @@ Example C01_load_nonvacuous :
   length (trees (snd (step_x (run c01_ops empty_world) (OLoad false doc)))) = 3.
 Proof. vm_compute. repeat split. Qed.
 
+(* the removals of C01_removed_gone / _removed_clones_gone / _removed_children_gone always succeed (those
+   theorems only spoke about the state afterwards) *)
+From NT Require Import RefusalMore.
+
+Theorem C01_remove_total : forall w ti n wc t d, get_tree w ti = Some t -> did_of n (forest_of t) = Some d ->
+  fst (step w (ORemove ti n false wc)) = Ok [].
+Proof. exact remove_total. Qed.
+Print Assumptions C01_remove_total.
+
+Theorem C01_remove_children_total : forall w ti n t ch, get_tree w ti = Some t -> children_of n (forest_of t) = Some ch ->
+  fst (step w (ORemoveChildren ti n)) = Ok [].
+Proof. exact remove_children_total. Qed.
+Print Assumptions C01_remove_children_total.
+
 (* ==== PART REMOVED: a removed node is inert (model theories/Forest/MiscRemoved.v, correspondence Cases/CaseMiscRemoved.v,
    harness parts_misc.REMOVED).  [slots] are the raw attributes of a node object, [sheap] gives them for every object;
    [clear_slots tag clear s] is what Tree._unregister assigns; [eval h fuel n a] is accessor [a] of node.py evaluated on
